@@ -928,7 +928,13 @@ def _random_shard(sh, params):
         fc = {"names": names, "objs": mats, "exps": exps, "kinds": kinds, "forms": forms,
               "style": style, "index": i, **opt,
               "tags": {"family": fam, "containers": sorted(set(kinds)),
-                       "mags": sorted({d["mag"] for d in descs})}}
+                       "mags": sorted({d["mag"] for d in descs}),
+                       # a complex entry whose modulus overflows although both parts
+                       # are finite doubles (|re|, |im| > 1.27e308)
+                       "cplx_abs_overflow": bool(any(
+                           np.iscomplexobj(E) and E.size and E.shape[0] == E.shape[1]
+                           and not np.all(np.isfinite(np.abs(E))) for E in exps
+                           if E is not None))}}
         for d in descs:
             sh.count("cell:pat-" + d["pat"])
             sh.count("cell:mag-" + d["mag"])
